@@ -57,3 +57,52 @@ func propHistory(t *rapid.T) {
 }
 
 func TestHistory(t *testing.T) { rapid.Check(t, propHistory) }
+
+// Deep restore chains: one wallet drives a keyset beyond 300 used counters, is restored, continues, and is
+// restored again (the second source wallet is itself a restored one).
+func propDeep(t *rapid.T) {
+	m := whist.New(t, whist.Options{
+		Weights: map[string]int{"mint": 1},
+		Owns:    map[string]bool{"C19": true},
+		Wallets: 1,
+		Mints:   1,
+		Fees:    []uint{0, 100},
+	})
+	defer m.Close()
+	rec.Eval()
+	h := m.Live()[0]
+	if err := m.MintInto(h, h.Default, rapid.Uint64Range(3000, 9000).Draw(t, "funding")); err != nil {
+		t.Fatalf("funding: %v", err)
+	}
+	target := uint32(rapid.SampledFrom([]int{130, 210, 320, 420}).Draw(t, "target_counter"))
+	for i := 0; i < 40 && m.MaxStoredCounter(m.Live()[0]) < target; i++ {
+		if !m.Exec(t, "churn") {
+			break
+		}
+	}
+	reached := m.MaxStoredCounter(m.Live()[0])
+	if rapid.Bool().Draw(t, "rotate_before_restore") {
+		m.Exec(t, "rotate")
+		m.Exec(t, "churn")
+	}
+	m.Exec(t, "restore")
+	n := rapid.IntRange(1, 4).Draw(t, "ops_after_first_restore")
+	for i := 0; i < n; i++ {
+		m.Exec(t, rapid.SampledFrom([]string{"churn", "churn", "mint", "send"}).Draw(t, "op_after_restore"))
+	}
+	m.Exec(t, "restore")
+	m.Exec(t, "churn")
+	m.Exec(t, "restore")
+	rec.NonTrivial(strings.Join(m.Trace, "|"))
+	rec.Class("deep_restore_chain")
+	if reached >= 300 {
+		rec.Class("deep_over_300_counters")
+	}
+	if reached >= 200 {
+		rec.Class("deep_over_200_counters")
+	}
+	rec.ClassN("restores", m.Count["restore"])
+	rec.Sample("deep", map[string]any{"counter_reached": reached, "trace_tail": m.Trace[max(0, len(m.Trace)-8):]})
+}
+
+func TestDeep(t *testing.T) { rapid.Check(t, propDeep) }
